@@ -1,15 +1,13 @@
 SPECIFICATION Spec
 CONSTANTS Spas = {"a", "b", "c"}
-          Filter = "absent"
+          Filter = "a"
           Poll = 1
           Initial = 3
           Timeout = 6
           MaxArrivals = 4
-          ListsAll = FALSE
+          ListsAll = TRUE
 INVARIANT NoDuplicates
-INVARIANT OnlyRequested
 INVARIANT WithinTimeout
-INVARIANT PromptWhenFiltered
 INVARIANT PromptWhenFound
 INVARIANT PromptWhenAny
 INVARIANT NotEarly
